@@ -69,7 +69,7 @@ pub fn honest_case<P: G>(cfg: &Cfg, wit: &Wit, ctx: &Ctx, rng_model: &str, verbo
                     format!("residual/{}", mode_name(mode)),
                     format!("accepted although the compared element is not the identity: {:?}", r),
                 ),
-                None => res.machinery_error("no identity comparison observed in an accepting verification"),
+                None => res.binding_note(format!("residual/{}", mode_name(mode)), "accepted without comparing anything with the identity (C02 / C05)"),
             }
         }
     }
@@ -288,6 +288,52 @@ pub fn witness_cases(cfg: &Cfg, tier: Tier) -> Vec<(String, Wit)> {
     out
 }
 
+/// Two honest proofs verified together, in both orders (completeness does not depend on what else is in the batch)
+fn honest_pair_case<P: G>(cfg: Cfg) -> Box<dyn Case> {
+    case(format!("{}/{}/honest-pair-in-batch", P::NAME, cfg.key()), move |_v| {
+        fg::clear_intern();
+        let mut res = CaseResult::new("accept");
+        let wit = Wit::default_for(&cfg);
+        let built = match build_cached::<P>(&cfg, &wit) {
+            Ok(b) => b,
+            Err(_) => return res,
+        };
+        let proof = match lib_prove(&built, &CTX_A, &mut HRng::chacha(90)) {
+            Ok(p) => p,
+            Err(_) => return res, // the single-proof cases report prover refusals
+        };
+        let comp_cfg = Cfg::new(cfg.n, 1, 1, cfg.d);
+        let mut cw = Wit::default_for(&comp_cfg);
+        cw.blindings[0][0] = blinding(77, 0);
+        let comp = build_cached::<P>(&comp_cfg, &cw).unwrap();
+        let comp_proof = match lib_prove(&comp, &contexts()[2], &mut HRng::chacha(91)) {
+            Ok(p) => p,
+            Err(_) => return res,
+        };
+        res.executions += 2;
+        for first in [true, false] {
+            let (sts, proofs, ctxs) = if first {
+                (vec![built.statement.clone(), comp.statement.clone()], vec![P::proof_clone(&proof), P::proof_clone(&comp_proof)], vec![CTX_A, contexts()[2]])
+            } else {
+                (vec![comp.statement.clone(), built.statement.clone()], vec![P::proof_clone(&comp_proof), P::proof_clone(&proof)], vec![contexts()[2], CTX_A])
+            };
+            for mode in MODES {
+                let mut ts: Vec<merlin::Transcript> = ctxs.iter().map(|c| c.transcript()).collect();
+                let obs = verify_observed(&sts, &proofs, &mut ts, mode);
+                res.executions += 1;
+                if !obs.is_ok() {
+                    res.outcome = "honest-rejected".into();
+                    res.violate(
+                        format!("first={}/{}", first, mode_name(mode)),
+                        format!("two honest proofs (aggregation {} and 1) verified together are not accepted in {}: {}", cfg.m, mode_name(mode), obs.describe()),
+                    );
+                }
+            }
+        }
+        res
+    })
+}
+
 fn cases_for<P: G>(tier: Tier) -> Vec<Box<dyn Case>> {
     let mut cases: Vec<Box<dyn Case>> = Vec::new();
     for cfg in lattice(tier.thorough()) {
@@ -303,6 +349,7 @@ fn cases_for<P: G>(tier: Tier) -> Vec<Box<dyn Case>> {
                 r
             }));
         }
+        cases.push(honest_pair_case::<P>(cfg));
         let base = Wit::default_for(&cfg);
         for ctx in contexts().into_iter().skip(1) {
             let key = format!("{}/{}/ctx={}", P::NAME, cfg.key(), ctx.key());
